@@ -72,11 +72,20 @@ def model_desc(b, d):
     return m
 
 
+class _OpaqueEx(Extractor):
+    """edges that carry a compiled graph of their own are opaque at the container level"""
+
+    def edge(self, e):
+        if type(e).__name__ == 'FilterEdge':
+            return {'k': 'fn', 'f': '$FilterEdge', 'kw': [], 'silent': []}
+        return super().edge(e)
+
+
 def real_bag(world, layer, bag=None):
     """the real container in the JSON form of the model, with the edges spelled out"""
     bag = layer._container if bag is None else bag
     rec = Recorder()
-    ex = Extractor(world)
+    ex = _OpaqueEx(world)
     ids = {}
 
     def nid(n):
@@ -328,4 +337,71 @@ def run_checkids_shard(args):
             bad.append({'desc': d, 'what': ['CheckIds container'] + keys, 'real': {kk: a[kk] for kk in keys[:2]}, 'model': {kk: m[kk] for kk in keys[:2]}})
         elif not ans.get('wf'):
             bad.append({'desc': d, 'what': 'the model container of CheckIds is not well-formed (Bag.wfB)'})
+    return stats, bad
+
+
+def run_filter_shard(args):
+    """the container of `previous >> Filter(predicate)` (layers/filter.py `_prepare_container`, layers/dynamic.py `_connect`)
+    against `CM.Model.FilterBag.filterConnect`: the previous real container goes in, the filtered containers are compared edge by
+    edge up to node identities (the predicate graph inside the FilterEdge is opaque here; S-REL compares what it computes)"""
+    seed, n = args
+    paths.use_repo()
+    from . import rel
+    recs, reqs = [], []
+    stats = {'filters': 0, 'errors': {}, 'edges': 0, 'skipped_dependency': 0}
+    for c in range(n):
+        rng = random.Random(seed * 50021 + c)
+        world = SymWorld()
+        b = Builder(world)
+        kind = rng.choice(['dataset', 'dataset', 'merge', 'chain', 'filtered'])
+        try:
+            counter = [0]
+            id_lists = rel.gen_ids(rng, 2 if kind == 'merge' else 1)
+            fields = rng.sample(['x', 'y', 'z'], rng.randint(1, 3))
+            ds = [rel.gen_dataset(rng, counter, ids, fields) for ids in id_lists]
+            layers = [b.layer(x) for x in ds]
+            layer = b.c.Merge(*layers) if kind == 'merge' else layers[0]
+            if kind == 'chain':
+                layer = layer >> b.c.CacheToRam(None)
+            if kind == 'filtered':
+                layer = layer >> b.c.Filter(lambda id: True)
+            prev = real_bag(world, layer)
+        except Exception:
+            continue
+        names = [o.name for o in layer._container.outputs if o.name != 'ids']
+        params = rng.sample(names, rng.randint(1, min(2, len(names)))) if names else ['id']
+        if rng.random() < 0.1:
+            params = params + ['nope']
+        keys = 'ids' if rng.random() < 0.9 else 'keys'
+        pred = eval('lambda ' + ', '.join(params) + ': True')
+        try:
+            real = {'ok': real_bag(world, None, b.c.Filter(pred, keys=keys)._connect(layer._container))}
+        except (Unsupported, RecUnsupported):
+            continue
+        except Exception as e:
+            if exc_name(e) == 'DependencyError':      # the predicate asks for a field that does not exist: not a container matter
+                stats['skipped_dependency'] += 1
+                continue
+            real = {'err': exc_name(e)}
+        recs.append(({'datasets': ds, 'kind': kind, 'params': params, 'keys': keys}, real))
+        reqs.append({'prev': prev, 'keys': keys})
+    answers = driver.run_lines([{'op': 'factory', 'filters': reqs}])[0] if reqs else {'filters': []}
+    bad = []
+    if 'error' in answers:
+        return stats, [{'desc': None, 'diff': answers['error']}]
+    for (d, real), ans in zip(recs, answers['filters']):
+        stats['filters'] += 1
+        if 'err' in real or 'err' in ans:
+            kk = real.get('err', 'ok')
+            stats['errors'][kk] = stats['errors'].get(kk, 0) + 1
+            if real.get('err') != ans.get('err'):
+                bad.append({'desc': d, 'what': 'Filter container', 'real': real.get('err', 'ok'), 'model': ans.get('err', 'ok')})
+            continue
+        stats['edges'] += len(real['ok']['edges'])
+        a, m = canon_sem(real['ok']), canon_sem(ans['ok'])
+        if a != m:
+            keys_ = [kk for kk in a if a[kk] != m[kk]]
+            bad.append({'desc': d, 'what': ['Filter container'] + keys_, 'real': {kk: a[kk] for kk in keys_[:2]}, 'model': {kk: m[kk] for kk in keys_[:2]}})
+        elif not ans.get('wf'):
+            bad.append({'desc': d, 'what': 'the model container of Filter is not well-formed (Bag.wfB)'})
     return stats, bad
